@@ -6,6 +6,7 @@
 package paths
 
 import (
+	"fmt"
 	"go/ast"
 	"go/token"
 	"go/types"
@@ -180,11 +181,18 @@ func (e *enumerator) events(n ast.Node, p Path, depth int, k func(Path)) {
 			return
 		}
 		body := e.c.Inline(calls[i])
+		enterAt := len(p)
 		e.block(body.List, append(p, Event{Kind: "ENTER", Pos: calls[i].Pos(), Node: calls[i]}), depth+1, func(p2 Path, ctl string) {
 			if ctl == "panic" {
 				return
 			}
-			run(i+1, append(p2, Event{Kind: "LEAVE", Pos: calls[i].Pos()}))
+			p3 := append(p2, Event{Kind: "LEAVE", Pos: calls[i].Pos()})
+			// a, b := helper(): what the helper's return says about nil-ness of its results is a fact
+			// about a and b in the caller (FLAG events, honoured by Consistent)
+			if as, ok := n.(*ast.AssignStmt); ok && len(as.Rhs) == 1 && ast.Unparen(as.Rhs[0]) == ast.Expr(calls[i]) && ctl == "ret" {
+				p3 = append(p3, e.resultFacts(as, p2, enterAt)...)
+			}
+			run(i+1, p3)
 		})
 	}
 	run(0, p)
@@ -453,6 +461,37 @@ func (e *enumerator) stmt(s ast.Stmt, p Path, depth int, k kont) {
 // Consistent reports whether the path's recorded condition outcomes do not contradict each other
 // (same atom with both outcomes, or X==Y / X!=Y with the same outcome). Infeasible paths produced by
 // the path-insensitive enumeration are pruned by rules that call this.
+// FlagConsistent is the part of Consistent that only uses FLAG facts: a condition that tests an atom a
+// FLAG event fixed must see that value (conditions are not compared with each other, so loops that
+// re-test a variable they advance stay feasible).
+func (p Path) FlagConsistent() bool {
+	seen := map[string]bool{}
+	for _, e := range p {
+		if e.Kind == "FLAG" {
+			if i := lastIndexByte(e.Arg, '='); i > 0 {
+				seen[e.Arg[:i]] = e.Arg[i+1:] == "true"
+			}
+			continue
+		}
+		if e.Kind != "COND" {
+			continue
+		}
+		i := lastIndexByte(e.Arg, '=')
+		if i < 0 {
+			continue
+		}
+		atom, val := e.Arg[:i], e.Arg[i+1:] == "true"
+		if j := indexOf(atom, "!="); j >= 0 {
+			atom = atom[:j] + "==" + atom[j+2:]
+			val = !val
+		}
+		if prev, ok := seen[atom]; ok && prev != val {
+			return false
+		}
+	}
+	return true
+}
+
 func (p Path) Consistent() bool {
 	seen := map[string]bool{}
 	for _, e := range p {
@@ -517,4 +556,54 @@ func nodeText(n ast.Node) string {
 		return types.ExprString(v.Chan) + "<-"
 	}
 	return ""
+}
+
+// resultFacts: for `l1, l2 := helper()` followed through the helper's body on path p (the helper's
+// segment starts at index from): FLAG events "l==nil=<bool>" for every identifier l whose result is
+// the nil literal, or a variable of the helper that the segment's last nil test decided.
+func (e *enumerator) resultFacts(as *ast.AssignStmt, p Path, from int) []Event {
+	var ret *ast.ReturnStmt
+	for i := len(p) - 1; i >= from; i-- {
+		if p[i].Kind == "RET" {
+			ret, _ = p[i].Node.(*ast.ReturnStmt)
+			break
+		}
+	}
+	if ret == nil || len(ret.Results) != len(as.Lhs) {
+		return nil
+	}
+	var out []Event
+	for i, l := range as.Lhs {
+		id, ok := l.(*ast.Ident)
+		if !ok || id.Name == "_" {
+			continue
+		}
+		known, isNil := false, false
+		switch r := ast.Unparen(ret.Results[i]).(type) {
+		case *ast.Ident:
+			if r.Name == "nil" {
+				known, isNil = true, true
+				break
+			}
+			for k := len(p) - 1; k >= from && !known; k-- {
+				if p[k].Kind != "COND" {
+					continue
+				}
+				switch p[k].Arg {
+				case r.Name + "==nil=true", "nil==" + r.Name + "=true":
+					known, isNil = true, true
+				case r.Name + "==nil=false", "nil==" + r.Name + "=false":
+					known, isNil = true, false
+				}
+			}
+		case *ast.UnaryExpr:
+			if r.Op == token.AND {
+				known, isNil = true, false
+			}
+		}
+		if known {
+			out = append(out, Event{Kind: "FLAG", Arg: fmt.Sprintf("%s==nil=%v", id.Name, isNil), Pos: as.Pos()})
+		}
+	}
+	return out
 }
